@@ -130,6 +130,7 @@ type Runner struct {
 	baseMs    int64 // times are logged in ms relative to this instant (TLC integers are 32 bit)
 	holdDone  chan struct{}
 	appMu     sync.Mutex
+	appLog    []int // application-visible content after each application transaction committed inside a Par block (under appMu)
 	freeLogMu sync.Mutex
 	freeLog   [][3]string // hooks reached after a Par block's schedule was exhausted (proc, event, open?)
 	store   any // *litestream.Store once a Par block or a Store-level operation needs one
@@ -950,6 +951,19 @@ func RunCase(c Case, baseDir string, hooks func(r *Runner, ls *litestream.DB)) (
 			var spec parSpec
 			if b, err := json.Marshal(st[1]); err == nil && json.Unmarshal(b, &spec) == nil {
 				r.runPar(spec, func(proc, what, res string) {
+					// application transactions committed inside the block since the last line: one ledger line each, in commit
+					// order, BEFORE this line's observation (everything but `app` is carried over from the previous line)
+					r.freeLogMu.Lock()
+					apps := r.appLog
+					r.appLog = nil
+					r.freeLogMu.Unlock()
+					for _, a := range apps {
+						stepNo++
+						pa := evs[len(evs)-1]
+						pa.I, pa.Op, pa.Arg, pa.N, pa.Res, pa.Ack, pa.App = stepNo, "ParApp", "", 0, "ok", false, a
+						pa.NewL0, pa.NewRem, pa.Rest, pa.Audit, pa.Calls, pa.Pre = []LtxObs{}, []LtxObs{}, NoRestore(), []AuditTx{}, []string{}, EmptyPre()
+						evs = append(evs, pa)
+					}
 					stepNo++
 					ev := blank(c, stepNo)
 					ev.Op, ev.Arg, ev.Res = "ParStep", proc+":"+what, res
